@@ -5,19 +5,21 @@ import json, os, subprocess, sys, concurrent.futures as cf
 VERIF = os.path.dirname(os.path.dirname(os.path.abspath(__file__)))
 patch = os.path.abspath(sys.argv[1]); label = sys.argv[2] if len(sys.argv) > 2 else os.path.basename(patch)
 props = [c["property_id"] for c in json.load(open(VERIF + "/MANIFEST.json"))["checks"]]
-st = subprocess.run("git -C /repo status --porcelain", shell=True, capture_output=True, text=True).stdout.strip()
-assert st == "", "/repo not clean: " + st
-r = subprocess.run(["git", "-C", "/repo", "apply", patch], capture_output=True, text=True)
+sys.path.insert(0, os.path.dirname(os.path.abspath(__file__)))
+import seed
+WORK = seed.prepare_worktree()
+r = subprocess.run(["git", "-C", WORK, "apply", patch], capture_output=True, text=True)
 assert r.returncode == 0, "patch does not apply: " + r.stderr
+ENV = dict(os.environ, VERIF_REPO=WORK)
 def one(p):
-    q = subprocess.run(["./check", p, "--tier", "quick"], cwd=VERIF, capture_output=True, text=True)
+    q = subprocess.run(["./check", p, "--tier", "quick"], cwd=VERIF, capture_output=True, text=True, env=ENV)
     lines = [l[:260] for l in q.stdout.splitlines() if l.startswith(("VIOLATION", "UNDECIDED"))]
     return p, q.returncode, lines
 try:
     with cf.ThreadPoolExecutor(max_workers=6) as ex:
         res = list(ex.map(one, props))
 finally:
-    subprocess.run("git -C /repo checkout -- . && git -C /repo clean -fdq -- src tests", shell=True)
+    subprocess.run("git -C %s checkout -- . && git -C %s clean -fdq -- src tests" % (WORK, WORK), shell=True)
 summary = {p: rc for p, rc, _ in res}
 print("%s: exit1=%s exit2=%s" % (label, [p for p, rc in summary.items() if rc == 1], [p for p, rc in summary.items() if rc == 2]))
 for p, rc, lines in res:
